@@ -356,3 +356,125 @@ def field_uses(f, tmpl, field):
         elif k == "CXXDeleteExpr":
             pass   # delete of a null pointer is fine
     return out
+
+
+# ------------------------------------------------------- iterator from find()
+FIND_MEMBERS = ("find", "lower_bound", "upper_bound")
+FIND_ALGOS = ("std::find", "std::find_if", "std::find_if_not", "std::lower_bound", "std::upper_bound")
+
+
+def unchecked_find_deref(f):
+    """locals holding the result of a lookup (map.find / std::find_if ...) that are dereferenced at a point not
+    dominated by the 'not end()' outcome of a comparison with end(): list of (deref stmt, local name, lookup stmt).
+    A lookup result equals end() when nothing matched; dereferencing it then is undefined."""
+    out = []
+    finds = {}
+    for st in f.stmts.values():
+        if st["k"] != "DeclStmt":
+            continue
+        for d in st["decls"]:
+            if not d.get("init") or d.get("ref"):
+                continue
+            e = unwrap(f, f.s(d["init"]))
+            while e is not None and e["k"] in CTORS and len(e["args"]) == 1:
+                e = unwrap(f, f.s(e["args"][0]))
+            if e is None:
+                continue
+            if (e["k"] == "CXXMemberCallExpr" and (e.get("callee") or {}).get("name") in FIND_MEMBERS) or \
+                    (e["k"] == "CallExpr" and callee_fq(e) in FIND_ALGOS):
+                finds[d["id"]] = (d["name"], e)
+    if not finds:
+        return out
+    # edges on which a given local is known to differ from end()
+    good = {}      # decl id -> set of blocks entered only through such an edge
+    for b, blk in f.blocks.items():
+        if not (blk.term and blk.term.get("cond") and len(blk.succs) == 2):
+            continue
+        c = unwrap(f, f.s(blk.term["cond"]))
+        neg = False
+        while c is not None and c["k"] == "UnaryOperator" and c["op"] == "!":
+            neg = not neg
+            c = unwrap(f, f.children(c)[0])
+        if c is None:
+            continue
+        if c["k"] == "CXXOperatorCallExpr" and c.get("op") in ("==", "!="):
+            a = [unwrap(f, f.s(x)) for x in c["args"][:2]]
+        elif c["k"] == "BinaryOperator" and c["op"] in ("==", "!="):
+            a = [unwrap(f, x) for x in f.children(c)]
+        else:
+            continue
+        op = c.get("op")
+        for x, y in ((a[0], a[1]), (a[1], a[0])):
+            while x is not None and x["k"] in CTORS and len(x["args"]) == 1:
+                x = unwrap(f, f.s(x["args"][0]))
+            while y is not None and y["k"] in CTORS and len(y["args"]) == 1:
+                y = unwrap(f, f.s(y["args"][0]))
+            if x is None or y is None or x["k"] != "DeclRefExpr" or x["d"].get("id") not in finds:
+                continue
+            if y["k"] in CALLS and (y.get("callee") or {}).get("name") in ("end", "cend"):
+                differs_on_true = (op == "!=") != neg
+                s = blk.succs[0] if differs_on_true else blk.succs[1]
+                if s is not None and [p for p in f.blocks[s].preds] == [b]:
+                    good.setdefault(x["d"]["id"], set()).add(s)
+    for st in f.stmts.values():
+        tgt = None
+        if st["k"] == "CXXOperatorCallExpr" and st.get("op") in ("->", "*") and st["args"]:
+            tgt = unwrap(f, f.s(st["args"][0]))
+        elif st["k"] == "UnaryOperator" and st["op"] == "*":
+            tgt = unwrap(f, f.children(st)[0])
+        elif st["k"] == "MemberExpr" and st.get("arrow"):
+            tgt = unwrap(f, f.s(st["base"]))
+        if tgt is None or tgt["k"] != "DeclRefExpr" or tgt["d"].get("id") not in finds:
+            continue
+        pos = f.pos_of(st)
+        if pos is None:
+            continue
+        ok = any(f.dominates_block(g, pos[0]) for g in good.get(tgt["d"]["id"], ()))
+        if not ok:
+            out.append((st, finds[tgt["d"]["id"]][0], finds[tgt["d"]["id"]][1]))
+    return out
+
+
+# ----------------------------------------------------- value consumed in a loop
+def moves_repeated(f):
+    """std::move / std::forward (as an rvalue) of an object that outlives the loop, at a point the loop can reach
+    again without the object being reassigned: the second iteration passes on a moved-from value.
+    list of (move stmt, path of the object)"""
+    out = []
+    loops = f.loops()
+    if not loops:
+        return out
+    assigns = {}
+    for b, blk in f.blocks.items():
+        for i, e in enumerate(blk.elems):
+            if e["k"] == "S":
+                for ap in assigned_paths(f, f.stmts[e["s"]]):
+                    assigns.setdefault(ap, []).append((b, i))
+    decl_blocks = {}
+    for st in f.stmts.values():
+        if st["k"] == "DeclStmt":
+            pos = f.pos_of(st)
+            for d in st["decls"]:
+                decl_blocks["l:" + d["name"]] = pos[0] if pos else None
+        if st["k"] == "CXXForRangeStmt" and st.get("loopvar"):
+            decl_blocks["l:" + st["loopvar"]["name"]] = "loopvar"
+    for st in f.stmts.values():
+        if st["k"] != "CallExpr" or callee_fq(st) not in ("std::move", "std::forward") or st.get("vk") != "x" or not st["args"]:
+            continue
+        p = path(f, f.s(st["args"][0]))
+        pos = f.pos_of(st)
+        if not p or pos is None:
+            continue
+        root = root_var(p)
+        inside = [body for _h, body in loops if pos[0] in body]
+        if not inside:
+            continue
+        body = min(inside, key=len)
+        if root.startswith("l:"):
+            db = decl_blocks.get(root)
+            if db == "loopvar" or db in body:
+                continue        # a fresh object every iteration
+        avoid = [q for ap, qs in assigns.items() if ap == p or ap == root or p.startswith(ap + ".") or p.startswith(ap + "->") for q in qs]
+        if f.reach_avoiding(tuple(pos), tuple(pos), avoid):
+            out.append((st, p))
+    return out
